@@ -58,9 +58,13 @@ def check_registry(run, tree):
            "units from two registries never compare equal and cannot be converted into each other")
     # exactly one Units() instance at module level, exported as `units`
     mi = tree.module("units/units.py")
-    inst = [st for st in mi.tree.body if isinstance(st, ast.Assign) and isinstance(st.value, ast.Call) and norm(st.value.func) == "Units"]
-    run.ob("units/units.py::single-instance", len(inst) == 1 and is_name(inst[0].targets[0], "units"), "units/units.py",
-           "%d module-level Units() instances" % len(inst), "osyris.units and the units used by Array differ")
+    ucls = tree.cls("units/units.py::Units")
+    inst = [st for m2 in tree.modules.values() for st in m2.tree.body if isinstance(st, ast.Assign) and isinstance(st.value, ast.Call)
+            and isinstance(st.value.func, ast.Name) and tree.resolve_name(m2, st.value.func.id) is ucls]
+    exported = tree.resolve_name(tree.module("units/__init__.py"), "units")
+    ok_inst = len(inst) == 1 and isinstance(exported, tuple) and exported[0] == "value" and exported[2] is inst[0].value
+    run.ob("units/units.py::single-instance", ok_inst, "units/units.py",
+           "%d module-level instances of the Units class; osyris.units resolves to %s" % (len(inst), "that instance" if ok_inst else exported), "osyris.units and the units used by Array differ")
     # the Units class folded on a recording registry: constants defined on THE registry; __call__ contract; define forwarded
     from ..models import ModelEval, Raised
     from ..peval import Model, Unsupported
